@@ -402,11 +402,17 @@ theorem typeValidate_noPanic {s : St} {exec : Bool} {h : Int} {tx : TxIn} {recv 
   · exact validateEvm_noPanic _ _ _
   · exact NoPanic_err _
 
-/-- C09 `no_panic_tx` -/
-theorem handleTx_noPanic {s : St} {exec : Bool} {h : Int} {tx : TxIn}
-    (hwf : DecodedWF tx ∨ tx.decodable = false) (henv : NoPanicEnv s exec h tx) :
+/-- core of `no_panic_tx`: everything except the per-type validation, which is a parameter
+    (`hval`, for any account ledger — validation runs after the receiver find-or-create) -/
+theorem handleTx_noPanic_core {s : St} {exec : Bool} {h : Int} {tx : TxIn}
+    (hwf : DecodedWF tx ∨ tx.decodable = false)
+    (hFee : FeeSane s)
+    (hBal : ∀ (k : String) (a : Account), s.accts.get exec k = some a → a.bal < stakeCap)
+    (hRew : ∀ (k : String) (r : Reward), s.rewards.get exec k = some r → r.height ≤ h)
+    (hAddr : exec = true → AddrOK s.accts.fin) (hO : OracleOK s exec tx)
+    (hval : ∀ (ac : Led Account) (recv : Account), tx.amount < stakeCap →
+      NoPanic (typeValidate { s with accts := ac } exec h tx recv)) :
     (handleTx s exec h tx).2.panic = "" := by
-  obtain ⟨hS, hO⟩ := henv
   unfold handleTx
   simp only
   split
@@ -420,10 +426,10 @@ theorem handleTx_noPanic {s : St} {exec : Bool} {h : Int} {tx : TxIn}
   · rfl
   rename_i sender hs
   obtain ⟨ac, hs0⟩ := findOrNew_frame_gen s exec tx.to
-  have hbal : sender.bal < stakeCap := hS.bal _ _ hs
+  have hbal : sender.bal < stakeCap := hBal _ _ hs
   have hF0 : FeeSane (s.findOrNewAcct exec tx.to).1 := by
-    have := hS.feeSane; unfold FeeSane at this ⊢; rw [hs0]; exact this
-  have hval : NoPanic (validateTrx (s.findOrNewAcct exec tx.to).1 exec h tx sender (s.findOrNewAcct exec tx.to).2) := by
+    unfold FeeSane at hFee ⊢; rw [hs0]; exact hFee
+  have hvalT : NoPanic (validateTrx (s.findOrNewAcct exec tx.to).1 exec h tx sender (s.findOrNewAcct exec tx.to).2) := by
     rw [validateTrx_eq]
     apply NoPanic_bind (cv0_noPanic _ _ _)
     intro _ h0
@@ -431,14 +437,10 @@ theorem handleTx_noPanic {s : St} {exec : Bool} {h : Int} {tx : TxIn}
     intro _ h1
     have hamt : tx.amount < stakeCap := by
       have := fee_facts_gen hF0 h0 h1; omega
-    apply typeValidate_noPanic hp hamt
-    · rw [hs0]; exact hS.minVal
-    · rw [hs0]; exact hS.minDel
-    · rw [hs0]; exact hS.deleg
-    · have := hS.limiter; unfold LimiterOK at this ⊢; rw [hs0]; exact this
+    rw [hs0]; exact hval ac _ hamt
   split
   · rfl
-  · rename_i site hv; exact absurd hv (hval site)
+  · rename_i site hv; exact absurd hv (hvalT site)
   rename_i s1 hv
   obtain ⟨h0, h1, htv⟩ := validateTrx_ok hv
   obtain ⟨⟨l, hl⟩, _⟩ := typeValidate_state htv
@@ -450,18 +452,80 @@ theorem handleTx_noPanic {s : St} {exec : Bool} {h : Int} {tx : TxIn}
       exact ⟨_, amountToPower_lt (by unfold stakeCap at hamt; omega)⟩
     · intro r hr
       rw [hl, hs0] at hr
-      exact hS.rewardH _ r hr
+      exact hRew _ r hr
     · intro he hvia
       subst he
       refine ⟨?_, hO rfl hvia⟩
       rw [hl]
-      exact AddrOK_findOrNew (hS.addr rfl) tx.to
+      exact AddrOK_findOrNew (hAddr rfl) tx.to
   split
   · rfl
   · rename_i site hr; exact absurd hr (hrun site)
   · rfl
   · rfl
 
+/-- C09 `no_panic_tx` -/
+theorem handleTx_noPanic {s : St} {exec : Bool} {h : Int} {tx : TxIn}
+    (hwf : DecodedWF tx ∨ tx.decodable = false) (henv : NoPanicEnv s exec h tx) :
+    (handleTx s exec h tx).2.panic = "" := by
+  obtain ⟨hS, hO⟩ := henv
+  have hp : tx.decodable = true → payloadOK tx.type tx.payload = true := by
+    intro hd
+    rcases hwf with h | h
+    · exact h.2
+    · rw [h] at hd; cases hd
+  by_cases hd : tx.decodable = true
+  · apply handleTx_noPanic_core hwf hS.feeSane hS.bal hS.rewardH hS.addr hO
+    intro ac recv hamt
+    exact typeValidate_noPanic (hp hd) hamt hS.minVal hS.minDel hS.deleg hS.limiter
+  · unfold handleTx; simp [hd]
+
+/-- an unstaking only lowers a power: with non-negative stake powers the limiter cannot panic on it,
+    whatever its base and validator count (since repair d28c085) -/
+theorem check_noPanic_nonpos (l : Limiter) (a : Hex) (t d : Int) (ap : Bool) (hd : d ≤ 0) :
+    ∀ site, l.check a t d ap ≠ .panic site := by
+  intro site hh
+  unfold Limiter.check at hh
+  simp only [] at hh
+  repeat' split at hh
+  all_goals first | (simp at hh; done) | skip
+  · have hx := ‹_ = some _›
+    subst hh
+    repeat' split at hx
+    all_goals first | (simp at hx; done) | skip
+  · have hx := ‹_ = Res.panic _›
+    repeat' split at hx
+    all_goals first | (simp at hx; done) | skip
+    rename_i hlen _ hnone
+    rw [List.getElem?_eq_none_iff] at hnone
+    omega
+  · have hx := ‹_ = Res.panic _›
+    repeat' split at hx
+    all_goals first | (simp at hx; done) | skip
+    all_goals omega
+
+theorem validateUnstaking_noPanic_nonneg {s : St} {exec : Bool} {tx : TxIn} (hp : payloadOK tx.type tx.payload = true)
+    (hty : tx.type = TRX_UNSTAKING)
+    (hst : ∀ d st, s.delegs.get exec (ledgerKey tx.to) = some d → st ∈ d.stakes → 0 ≤ st.power) :
+    NoPanic (validateUnstaking s exec tx) := by
+  intro site hh
+  unfold validateUnstaking at hh
+  panic_cases hh
+  · rename_i d hd _ hash _ _ _ st hfs _
+    have hmem : st ∈ d.stakes := List.mem_of_find?_eq_some hfs
+    have hpow := hst d st hd hmem
+    unfold St.limit at hh
+    split at hh
+    · split at hh
+      · simp at hh
+      · simp at hh
+      · rename_i site' hc
+        exact check_noPanic_nonpos _ _ _ _ _ (by omega) site' hc
+    · simp at hh
+  · rename_i hne
+    obtain ⟨p3, _⟩ := payload_of_type hp
+    obtain ⟨x, hx⟩ := p3 hty
+    exact hne _ hx
 
 /-! ### wrappers -/
 
